@@ -105,14 +105,15 @@ def r1(ctx):
 @rule("R-C07-2", min_instances=2, title="the pong is sent whether or not control frames are reported to the caller")
 def r2(ctx):
     loc = ctx.index.loc(ctx.index.func(Q).node)
-    for state in ("idle", "text"):
+    for state in ("idle", "text", "binary"):
         I, outs = leaves(ctx, state)
         seen = {True: 0, False: 0}
         bad = []
         for o in outs:
             d = frame_dims(I, o)
-            if d is None or o.kind == "raise" or not (d["opcode"].lo == d["opcode"].hi == 9):
+            if d is None or o.kind == "raise" or not (d["opcode"].lo == d["opcode"].hi and d["opcode"].lo in (9, 10)):
                 continue
+            is_pong = d["opcode"].lo == 10
             cf = o.run.facts.get(Sym("control_frame", "bool").key())
             flag = cf.truth if cf else None
             pongs = [e for e in o.effects if e.name == "pong"]
@@ -121,13 +122,14 @@ def r2(ctx):
                 flag = False
             seen[flag] += 1
             want_kind = "return" if flag else "backedge"
-            if len(pongs) != 1 or o.kind != want_kind:
+            if len(pongs) != (0 if is_pong else 1) or o.kind != want_kind:
                 bad.append((flag, o))
         if not seen[True] or not seen[False]:
             raise AnalysisError(f"state {state}: control_frame on/off not both explored {seen}")
-        ctx.ob(f"{Q}:{state}:pong-independent-of-control_frame", not bad,
-               f"pong sent on {seen[True]} reporting and {seen[False]} non-reporting paths" if not bad else
-               f"with control_frame={bad[0][0]} a ping path ends as {bad[0][1].kind} with {len([e for e in bad[0][1].effects if e.name == 'pong'])} pongs",
+        ctx.ob(f"{Q}:{state}:control-frames-reported-iff-requested", not bad,
+               f"pings answered and pings/pongs reported on {seen[True]} reporting paths, consumed silently on {seen[False]} others" if not bad else
+               f"with control_frame={bad[0][0]} a ping/pong path ends as {bad[0][1].kind} with {len([e for e in bad[0][1].effects if e.name == 'pong'])} pongs written: "
+               f"every ping is answered once and, when control frames are requested, every ping and pong is handed to the caller in every reassembly state",
                loc, {"path": path_text(bad[0][1])} if bad else None)
 
 
@@ -157,3 +159,9 @@ def r3(ctx):
                             and pl.args[1] in (C("utf-8"), C("utf8"), C("UTF-8"))
                     ok = okp and opv == C(op)
                 ctx.ob(f"{q}:{kind}", ok, f"send calls: {[repr(s) for s in sends]}", ctx.index.loc(ctx.index.func(q).node))
+
+
+@rule("R-C07-4", min_instances=4, title="nothing else answers: WebSocketApp's read() writes nothing to the socket for any frame (the receive loop already replied)")
+def r4(ctx):
+    from .c13 import r1 as routing
+    routing(ctx)
